@@ -79,6 +79,17 @@ func (c14) Gen(r *rand.Rand, tier string, run int) *core.Case {
 		c.Ops = append(c.Ops, core.Op{Kind: "update", Actor: 60 + i%2*5, X: next})
 		next++
 	}
+	// the service writes through the direct proxy of an object it created
+	// itself (generated Create<Itf> / bus.DirectClient): those writes reach
+	// the object through a second mailbox, concurrently with the clients'
+	if r.IntN(4) == 0 {
+		c.Batch = "direct-proxy"
+		c.Params["direct"] = 1
+		for i := 0; i < 2+r.IntN(3); i++ {
+			c.Ops = append(c.Ops, core.Op{Kind: "direct-set", Actor: 66, X: next})
+			next++
+		}
+	}
 	// other subscribers come and go while writes are announced: they are not
 	// judged themselves, the stable subscribers must not be disturbed
 	if r.IntN(2) == 0 {
@@ -107,6 +118,21 @@ func (c14) Run(c *core.Case, env *core.Env) {
 		return
 	}
 	w.Impls[0].ValidatorYields = c.P("validator_yields", 0)
+	target := uint32(1)
+	targetImpl := w.Impls[0]
+	var direct probe.ProbeProxy
+	if c.P("direct", 0) == 1 {
+		zzsim.SetNode("server")
+		impl := &ProbeImpl{Env: env, Obj: 1, ValidatorYields: c.P("validator_yields", 0)}
+		direct, err = probe.CreateProbe(nil, w.Svc, impl)
+		zzsim.SetNode("harness")
+		if err != nil {
+			env.Violate("harness/setup", "CreateProbe: %v", err)
+			return
+		}
+		target = direct.Proxy().ObjectID()
+		targetImpl = impl
+	}
 	nConn := c.P("conns", 1)
 	var proxies []probe.ProbeProxy
 	for i := 0; i < nConn; i++ {
@@ -115,7 +141,7 @@ func (c14) Run(c *core.Case, env *core.Env) {
 			env.Violate("setup/connect", "%v", err)
 			return
 		}
-		p, err := ProbeProxy(cl, w.ServiceID, 1)
+		p, err := ProbeProxy(cl, w.ServiceID, target)
 		if err != nil {
 			env.Violate("setup/proxy", "%v", err)
 			return
@@ -131,7 +157,7 @@ func (c14) Run(c *core.Case, env *core.Env) {
 			env.Violate("setup/connect", "%v", err)
 			return
 		}
-		p, err := ProbeProxy(cl, w.ServiceID, 1)
+		p, err := ProbeProxy(cl, w.ServiceID, target)
 		if err != nil {
 			env.Violate("setup/proxy", "%v", err)
 			return
@@ -157,7 +183,7 @@ func (c14) Run(c *core.Case, env *core.Env) {
 			env.Violate("setup/connect", "%v", err)
 			return
 		}
-		p, err := ProbeProxy(cl, w.ServiceID, 1)
+		p, err := ProbeProxy(cl, w.ServiceID, target)
 		if err != nil {
 			env.Violate("setup/proxy", "%v", err)
 			return
@@ -192,7 +218,7 @@ func (c14) Run(c *core.Case, env *core.Env) {
 		wg.Add(1)
 		go func(a int) {
 			defer wg.Done()
-			if a == 60 || a == 65 {
+			if a == 60 || a == 65 || a == 66 {
 				zzsim.SetNode("server")
 			}
 			for _, op := range by[a] {
@@ -253,9 +279,16 @@ func (c14) Run(c *core.Case, env *core.Env) {
 						}
 						churnCancel[op.X]()
 					}
+				case "direct-set":
+					if direct == nil {
+						continue
+					}
+					h := env.Invoke(a, "set", strconv.Itoa(int(op.X)))
+					err := direct.SetLevel(int32(op.X))
+					env.Return(h, "", err)
 				case "update":
 					h := env.Invoke(a, "update", strconv.Itoa(int(op.X)))
-					err := w.Impls[0].Helper.UpdateLevel(int32(op.X))
+					err := targetImpl.Helper.UpdateLevel(int32(op.X))
 					env.Return(h, "", err)
 				}
 			}
